@@ -9,6 +9,7 @@ whole path condition, so at a new branch only the *other* side needs a query.
 """
 from __future__ import annotations
 
+import os
 import time
 from fractions import Fraction
 
@@ -116,7 +117,8 @@ def _has_fp(e) -> bool:
 
 class Stats:
     FIELDS = ("paths", "decisions", "forced", "solver_calls", "solver_s", "unknown",
-              "obligations", "discharged", "assume_pruned", "fp_queries", "max_depth")
+              "obligations", "discharged", "assume_pruned", "fp_queries", "max_depth",
+              "xc_queries", "xc_agree", "xc_unknown", "xc_disagree", "xc_s")
 
     def __init__(self):
         for f in self.FIELDS:
@@ -137,6 +139,13 @@ class Stats:
 
 
 SOLVER_TIMEOUT_MS = 300000
+
+# Second opinion (thorough tier): a sample of the unsat verdicts that decide an obligation or prune a branch is
+# re-discharged with cvc5 (sx/xcheck.py). Budget per worker process, one query in XC_STRIDE, XC_TIMEOUT_S each.
+XC_LEFT = int(os.environ.get("VERIF_XCHECK_OBL", "0") or 0)
+XC_STRIDE = int(os.environ.get("VERIF_XCHECK_STRIDE", "5") or 5)
+XC_TIMEOUT_S = float(os.environ.get("VERIF_XCHECK_TIMEOUT", "10") or 10)
+_xc_seen = 0
 
 
 class SymCtx:
@@ -255,6 +264,7 @@ class SymCtx:
         s.set("timeout", timeout_ms or SOLVER_TIMEOUT_MS)
         s.add(*cons)
         s.add(*extra)
+        self._last_query = list(cons) + list(extra)
         r = s.check()
         dt = time.perf_counter() - t0
         self.stats.solver_calls += 1
@@ -265,6 +275,30 @@ class SymCtx:
             return "unsat", None
         self.stats.unknown += 1
         return "unknown", None
+
+    def second_opinion(self, what):
+        """z3 has just answered unsat for self._last_query: ask cvc5 too (sampled, budgeted). A 'sat' is never ignored."""
+        global XC_LEFT, _xc_seen
+        if XC_LEFT <= 0:
+            return
+        _xc_seen += 1
+        if _xc_seen % XC_STRIDE:
+            return
+        XC_LEFT -= 1
+        from .xcheck import cvc5_check
+        r, dt = cvc5_check(self._last_query, timeout_s=XC_TIMEOUT_S)
+        if r == "unavailable":
+            XC_LEFT = 0
+            return
+        self.stats.xc_queries += 1
+        self.stats.xc_s += dt
+        if r == "unsat":
+            self.stats.xc_agree += 1
+        elif r == "sat":
+            self.stats.xc_disagree += 1
+            raise Inconclusive(f"solver disagreement at {what}: z3 unsat, cvc5 sat")
+        else:
+            self.stats.xc_unknown += 1
 
     def _add(self, e):
         self.pc.append(e)
@@ -302,6 +336,7 @@ class SymCtx:
             self.pending.append((self.decisions + [not mv], alt_model))
         else:
             self.stats.forced += 1
+            self.second_opinion("pruned branch")
         self.decisions.append(mv)
         self._add(e if mv else z3.Not(e))
         self.stats.max_depth = max(self.stats.max_depth, len(self.decisions))
@@ -445,6 +480,7 @@ class SymCtx:
             self.stats.fp_queries += 1
         r, m = self.solve(neg, want_model=False)
         if r == "unsat":
+            self.second_opinion(f"obligation {label}")
             self.stats.discharged += 1
             return True
         if r == "unknown":
